@@ -185,8 +185,8 @@ SPEC = {
     'deciding': ['exact-on-complete-manifold[singlesite]', 'exact-on-complete-manifold[twosite]', 'reversible', 'second-return==1-for-imaginary-dt'],
     'workloads': [
         Workload('exactness', EX_Q, quick=len(QUICK_CASES), thorough=0, exhaustive={'space': 'all total-charge sectors of every (model, L<=4)'}),
-        Workload('exactness-all', EX_T, quick=0, thorough=len(CASES) * 6, exhaustive={'space': 'all total-charge sectors of every (model, L) within dense reach, 6 repetitions with rotating dt kinds'}),
-        Workload('reversibility', reversibility, quick=150, thorough=5000),
+        Workload('exactness-all', EX_T, quick=0, thorough=len(CASES) * 40, exhaustive={'space': 'all total-charge sectors of every (model, L) within dense reach, 6 repetitions with rotating dt kinds'}),
+        Workload('reversibility', reversibility, quick=450, thorough=40000),
     ],
     'shards': {'quick': 4, 'thorough': 16},
     'watchdog_s': {'quick': 900, 'thorough': 7200},
